@@ -492,9 +492,6 @@ impl<T: Smp> Slot<T> {
             Some(m) => m,
             None => return bad,
         };
-        let (inn, inm, outn, outm, nch) = with_inst!(&self.inst, r => (
-            Resampler::input_frames_next(r), Resampler::input_frames_max(r),
-            Resampler::output_frames_next(r), Resampler::output_frames_max(r), Resampler::nbr_channels(r)));
         let sig = match Sig::parse(t[3]) {
             Some(s) => s,
             None => return bad,
@@ -502,6 +499,17 @@ impl<T: Smp> Slot<T> {
         let o = match parse_opts(&t[4..]) {
             Some(o) => o,
             None => return bad,
+        };
+        // a caller that holds the resampler as `&mut dyn VecResampler` sizes its buffers with THAT trait's getters
+        let (inn, inm, outn, outm, nch) = if o.dynamic {
+            with_inst!(&self.inst, r => {
+                let d: &dyn VecResampler<T> = r;
+                (d.input_frames_next(), d.input_frames_max(), d.output_frames_next(), d.output_frames_max(), d.nbr_channels())
+            })
+        } else {
+            with_inst!(&self.inst, r => (
+                Resampler::input_frames_next(r), Resampler::input_frames_max(r),
+                Resampler::output_frames_next(r), Resampler::output_frames_max(r), Resampler::nbr_channels(r)))
         };
         let in_none = partial && t[1] == "none";
         let inlen = if in_none {
@@ -590,8 +598,6 @@ impl<T: Smp> Slot<T> {
             Some(m) => m,
             None => return bad,
         };
-        let (inn, inm, nch) = with_inst!(&self.inst, r => (
-            Resampler::input_frames_next(r), Resampler::input_frames_max(r), Resampler::nbr_channels(r)));
         let sig = match Sig::parse(t[2]) {
             Some(s) => s,
             None => return bad,
@@ -599,6 +605,16 @@ impl<T: Smp> Slot<T> {
         let o = match parse_opts(&t[3..]) {
             Some(o) => o,
             None => return bad,
+        };
+        // (the wrapper does not report the consumed count either: a `dyn` caller advances by the wrapper trait's getter)
+        let (inn, inm, nch) = if o.dynamic {
+            with_inst!(&self.inst, r => {
+                let d: &dyn VecResampler<T> = r;
+                (d.input_frames_next(), d.input_frames_max(), d.nbr_channels())
+            })
+        } else {
+            with_inst!(&self.inst, r => (
+                Resampler::input_frames_next(r), Resampler::input_frames_max(r), Resampler::nbr_channels(r)))
         };
         let in_none = partial && t[1] == "none";
         let inlen = if in_none {
